@@ -576,4 +576,24 @@ theorem bind_unpack_append {α : Type} (f : CfdpTlv → Py α) (d rest : Bytes) 
   | error e => rw [ht] at h; cases h
   | ok t => rw [CfdpTlv.unpack_append d rest t ht]; rw [ht] at h; exact h
 
+/-- **prefix stability of every concrete decoder** (C09): octets after the TLV never matter -/
+theorem EntityIdTlv.unpack_append (d rest : Bytes) (x : EntityIdTlv) (h : EntityIdTlv.unpack d = .ok x) :
+    EntityIdTlv.unpack (d ++ rest) = .ok x := by
+  rw [EntityIdTlv.unpack_bind] at h ⊢; exact bind_unpack_append _ d rest x h
+theorem FlowLabelTlv.unpack_append (d rest : Bytes) (x : FlowLabelTlv) (h : FlowLabelTlv.unpack d = .ok x) :
+    FlowLabelTlv.unpack (d ++ rest) = .ok x := by
+  rw [FlowLabelTlv.unpack_bind] at h ⊢; exact bind_unpack_append _ d rest x h
+theorem MessageToUserTlv.unpack_append (d rest : Bytes) (x : MessageToUserTlv)
+    (h : MessageToUserTlv.unpack d = .ok x) : MessageToUserTlv.unpack (d ++ rest) = .ok x := by
+  rw [MessageToUserTlv.unpack_bind] at h ⊢; exact bind_unpack_append _ d rest x h
+theorem FaultHandlerOverrideTlv.unpack_append (d rest : Bytes) (x : FaultHandlerOverrideTlv)
+    (h : FaultHandlerOverrideTlv.unpack d = .ok x) : FaultHandlerOverrideTlv.unpack (d ++ rest) = .ok x := by
+  rw [FaultHandlerOverrideTlv.unpack_bind] at h ⊢; exact bind_unpack_append _ d rest x h
+theorem FileStoreRequestTlv.unpack_append (d rest : Bytes) (x : FileStoreRequestTlv)
+    (h : FileStoreRequestTlv.unpack d = .ok x) : FileStoreRequestTlv.unpack (d ++ rest) = .ok x := by
+  rw [FileStoreRequestTlv.unpack_bind] at h ⊢; exact bind_unpack_append _ d rest x h
+theorem FileStoreResponseTlv.unpack_append (d rest : Bytes) (x : FileStoreResponseTlv)
+    (h : FileStoreResponseTlv.unpack d = .ok x) : FileStoreResponseTlv.unpack (d ++ rest) = .ok x := by
+  rw [FileStoreResponseTlv.unpack_bind] at h ⊢; exact bind_unpack_append _ d rest x h
+
 end SpVerif.Tlv
